@@ -261,7 +261,8 @@ def gen_type_lemmas(meta):
     ls = out + gen_type_lemmas2(meta)
     if nested:
         # exponent / small-argument case splits of the inner level are not replicated for the nested units
-        ls = [l for l in ls if not any(l.name.startswith(f"lem_{ty}_{k}") for k in NESTED_SKIP)]
+        skip = NESTED_SKIP + (("log",) if ty.count("__") >= 2 else ())
+        ls = [l for l in ls if not any(l.name.startswith(f"lem_{ty}_{k}") for k in skip)]
         for l in ls:
             if "C04" not in l.prop:
                 l.prop = l.prop + ["C04"]
